@@ -108,6 +108,24 @@ CHECKS = {
         "pre, can_post, reach_backward, trap_forward, restrict, Reachability::reach_bwd of lib-param-bn are trusted; models needing more than a minute per operator are excluded.",
         "DESIGN.md section 6, C11",
     ),
+    "C16": (
+        "round-trip property-based testing (proptest) through temporary files",
+        "No counterexample among generated (network in aeon/bnet/sbml, label->set map, formula list): archive entries are exactly one per result + model + formula list; reload with a graph rebuilt from the archived model and the same k gives the same labels and BDD-equal sets; reloaded sets act like in-memory sets as wild-card context; analyse_formulae's archive entry i is the library result of line i. Exploration.",
+        "Temporary files under the system temp directory; zip crate 0.6 used to inspect archives.",
+        "DESIGN.md section 6, C16",
+    ),
+    "C17": (
+        "differential property-based testing (proptest) driving the hctl-model-checker binary built from the working tree",
+        "No counterexample among generated CLI invocations (model format x formula-file layout x print option x optional context archive x injected input faults): archived sets, printed counts and exhaustive listings equal the library API results (and the explicit semantics for counts), formulae are processed in file order, error inputs produce a message and exit code 0. Exploration.",
+        "./check rebuilds the binaries from /repo before the run; counts compared as printed.",
+        "DESIGN.md section 6, C17",
+    ),
+    "C19": (
+        "property-based testing (proptest) driving the convert-aeon-to-bnet binary; truth-table families as reference model",
+        "No counterexample among generated aeon networks (implicit functions, shared / nested uninterpreted symbols applied to expressions, collision-prone names): per variable, the family of truth tables of the output over all values of the fresh inputs equals the family of the input over all instantiations (constraints dropped); inputs stay inputs; no extra targets. Exploration.",
+        "./check rebuilds the binaries from /repo; the per-variable oracle is what the statement fixes (joint families not asserted).",
+        "DESIGN.md section 6, C19",
+    ),
 }
 
 PENDING_REASON = "check not built yet in this session (work in progress; see DESIGN.md section 10)"
